@@ -62,7 +62,7 @@ REQUIRED_MONITORS = ["component-interpolation-equals-whole", "split-indices-part
                      "inverse-inverts-local", "dense-equals-sparse", "dot-equals-matvec", "compositebasis-equals-composite-element",
                      "split-on-restricted-basis", "asm-product-equals-weighted-sum",
                      "linear-elemental-data", "functional-elemental-data", "trilinear-elemental-data"]
-REQUIRED_REACH = ["rectangular-local", "coo-dot-rectangular", "vector-element", "composite-3-components", "3d-composite", "facet-tolocal", "asm-list-with-dof-array-keyword",
+REQUIRED_REACH = ["rectangular-local", "coo-dot-rectangular", "blocks-of-very-different-magnitude", "vector-element", "composite-3-components", "3d-composite", "facet-tolocal", "asm-list-with-dof-array-keyword",
                   "vector-components-differ-from-dimension", "coo-dot-non-float64-vector", "coo-dot-complex-data",
                   "asm-product-of-two-lists", "asm-raw-callable", "asm-list-functional",
                   "vector-element-blocks", "vector-element-blocks-components-differ-from-dimension", "nested-split",
@@ -1163,6 +1163,29 @@ def judge_sum(ctx, S, ops, how, tag, xs=()):
     lit = lit.toarray() if nd == 2 else np.asarray(lit)
     ctx.close(M, dflt, lit, rtol=1e-5 if any(is_single(o.dtype) for o in ops) else 1e-12, scale=scale,
               mech=mech("sum-of-assembled"), **d)
+    if nd == 2:
+        # per-cell local matrices of a sum: either refused, or one matrix per cell that is the sum of the operands' local
+        # matrices (never twice as many "local matrices" cut out of the concatenated values)
+        try:
+            locS = np.asarray(S.tolocal())
+        except Exception:  # noqa: BLE001  (the library refuses sums: legitimate)
+            ctx.tolerated(M)
+            locS = None
+            ctx.reached("coo-add:tolocal-of-a-sum-refused")
+        if locS is not None:
+            try:
+                locs = [np.asarray(o.coo.tolocal()) for o in ops]
+                same_cells = all(l.shape == locs[0].shape for l in locs)
+            except Exception:  # noqa: BLE001
+                locs, same_cells = None, False
+            if locs is not None and same_cells:
+                want = functools.reduce(operator.add, [l.astype(np.complex128 if wide.kind == "c" else np.float64) for l in locs])
+                ok = locS.shape == want.shape and np.allclose(locS, want, rtol=0, atol=rt * scale)
+                ctx.check(M, bool(ok), mech=mech("tolocal-of-a-sum"), shape=locS.shape, want_shape=want.shape, **d)
+            else:
+                # operands on different domains: no per-cell meaning; returning anything but a refusal is wrong
+                ctx.check(M, False, mech=mech("tolocal-of-a-sum-of-different-domains-returns"), shape=locS.shape, **d)
+            ctx.reached("coo-add:tolocal-of-a-sum-answered")
     if nd == 2 and S.shape[0] == S.shape[1]:
         rows = float(np.max(mag.sum(axis=1)))
         for xname, xv in xs:
@@ -1300,7 +1323,55 @@ def fam(fn, kind):
     return lambda ctx, k: fn(ctx, k, kind)
 
 
-FAMILIES = [Family("bmat-directed", bmat_directed, 20, 400)]
+def block_magnitudes(ctx, k):
+    """Blocks of very different magnitude in one coupled matrix (stiffness in Pa next to a permittivity, 2^40 .. 2^-60): the
+    coupled assembly still equals the block matrix of the component forms, EVERY block judged relative to its own size.
+    The coefficients are powers of two, so each block is the exactly scaled component matrix."""
+    import skfem
+    from skfem.helpers import dot, grad
+    rng = ctx.rng()
+    kind = ("tri", "quad", "tet", "line")[k % 4]
+    hi = {"tri": "ElementTriP2", "quad": "ElementQuad2", "tet": "ElementTetP2", "line": "ElementLineP2"}[kind]
+    lo = {"tri": "ElementTriP1", "quad": "ElementQuad1", "tet": "ElementTetP1", "line": "ElementLineP1"}[kind]
+    mc = G.first_order(rng, kind)
+    mesh = mc.mesh
+    if mesh.t.shape[1] > 24:
+        S = np.sort(rng.choice(mesh.t.shape[1], size=24, replace=False))
+        p_, t_ = G.clean(np.asarray(mesh.p), np.asarray(mesh.t)[:, S].astype(np.int64))
+        mesh = type(mesh)(p_, t_)
+    e1, e2 = EL.by_name(hi).make(), EL.by_name(lo).make()
+    basis = skfem.CellBasis(mesh, skfem.ElementComposite(e1, e2), intorder=4)
+    b1, b2 = skfem.CellBasis(mesh, EL.by_name(hi).make(), intorder=4), skfem.CellBasis(mesh, EL.by_name(lo).make(), intorder=4)
+    ex = [(40, -40, 0), (-60, 20, -20), (30, -30, 30), (0, -55, 10)][(k // 4) % 4]
+    c11, c22, c12 = (2.0 ** e for e in ex)
+    coupled = skfem.BilinearForm(lambda u1, u2, v1, v2, w: c11 * (u1 * v1 + dot(grad(u1), grad(v1))) + c22 * u2 * v2 + c12 * u2 * v1)
+    K = coupled.assemble(basis)
+    I1, I2 = basis.split_indices()
+    A11 = skfem.BilinearForm(lambda u, v, w: u * v + dot(grad(u), grad(v))).assemble(b1).toarray()
+    A22 = skfem.BilinearForm(lambda u, v, w: u * v).assemble(b2).toarray()
+    A12 = skfem.BilinearForm(lambda u, v, w: u * v).assemble(b2, b1).toarray()          # trial = component 2, test = component 1
+    Kd = K.toarray()
+    tag = dict(mesh=type(mesh).__name__, exponents=list(ex), cells=int(mesh.t.shape[1]))
+    for name, blk, ref in (("11", Kd[np.ix_(I1, I1)], c11 * A11), ("22", Kd[np.ix_(I2, I2)], c22 * A22),
+                           ("12", Kd[np.ix_(I1, I2)], c12 * A12), ("21", Kd[np.ix_(I2, I1)], 0 * A12.T)):
+        sc = float(np.abs(ref).max())
+        if sc == 0:
+            ctx.check("coupled-equals-blocks", float(np.abs(blk).max()) == 0.0, mech="block-magnitudes:zero-block-not-zero", block=name, **tag)
+        else:
+            ctx.close("coupled-equals-blocks", blk, ref, rtol=1e-12, scale=sc, mech="block-magnitudes:block-judged-by-its-own-size", block=name, **tag)
+    # the elemental data say the same (dot does not pass through the sparse conversion)
+    coo = coupled.coo_data(basis)
+    x = rng.standard_normal(basis.N)
+    x1 = np.zeros(basis.N)
+    x1[I2] = x[I2]
+    y = np.asarray(K @ x1)[I2]
+    yc = np.asarray(coo.dot(x1))[I2]
+    ctx.close("dot-equals-matvec", y, yc, rtol=1e-11, scale=float(np.abs(yc).max()) + 1e-300, mech="block-magnitudes:small-block-through-sparse-vs-dot", **tag)
+    ctx.reached("blocks-of-very-different-magnitude")
+    ctx.nontrivial("block-magnitudes", kind, ex)
+
+
+FAMILIES = [Family("bmat-directed", bmat_directed, 20, 400), Family("block-magnitudes", block_magnitudes, 16, 160)]
 for kd, q, th in (("line", 6, 90), ("tri", 18, 450), ("quad", 12, 300), ("tet", 14, 280), ("hex", 10, 160)):
     FAMILIES.append(Family("split-" + kd, fam(split_interp, kd), q, th))
     FAMILIES.append(Family("blocks-" + kd, fam(coupled_blocks, kd), q, th))
